@@ -262,7 +262,7 @@ func c12StepLevel(c *ctx, rng *core.Rand, _ []*core.Session, n int) error {
 			}
 			return gen.DefaultKey(r)
 		}, MaxMapSize: 20, MaxGroupDepth: 0}
-		c12Mode = rng.Intn(3)
+		c12Mode = rng.Intn(4)
 		stepDoc := o.CommandStep()
 		// a matrix whose dimensions we know, so that a valid permutation exists
 		collideCfg := false
@@ -277,6 +277,17 @@ func c12StepLevel(c *ctx, rng *core.Rand, _ []*core.Session, n int) error {
 			setup.Set("arch", []any{"arm", "x86"})
 			stepDoc.Set("matrix", ordered.MapFromItems(ordered.TupleSA{Key: "setup", Value: setup}))
 			perm = map[string]string{"os": core.Pick(rng, []string{"linux", "{{matrix.arch}}"}), "arch": core.Pick(rng, []string{"arm", "x86"})}
+		case 3:
+			// a matrix that is present but has no dimensions: the empty permutation is its one valid permutation
+			stepDoc.Set("matrix", core.Pick(rng, []any{
+				ordered.NewMap[string, any](0),
+				ordered.MapFromItems(ordered.TupleSA{Key: "setup", Value: ordered.NewMap[string, any](0)}),
+				ordered.MapFromItems(ordered.TupleSA{Key: "setup", Value: ordered.NewMap[string, any](0)}, ordered.TupleSA{Key: "adjustments", Value: []any{}}),
+			}))
+			if rng.Intn(2) == 0 {
+				perm = map[string]string{}
+			}
+			c.res.Hist("step.dimensionless-matrix")
 		default:
 			stepDoc.Delete("matrix")
 			perm = map[string]string{}
@@ -375,6 +386,11 @@ func c12StepLevel(c *ctx, rng *core.Rand, _ []*core.Session, n int) error {
 			c.res.OracleChecks++
 			if ierr == nil && vl.Enc(after) != vl.Enc(before) {
 				c.res.Fail(core.OracleFailure{What: "empty permutation changed the step", Input: desc})
+			}
+			// an empty permutation that the step's matrix accepts (no matrix, or a matrix without dimensions) changes
+			// nothing — it does not fail either, whatever tokens the strings carry (whether the matrix accepts it is C11's subject)
+			if ierr != nil && (cs.Matrix == nil || cs.Matrix.VerifValidatePermutation(pipeline.MatrixPermutation(perm)) == nil) {
+				c.res.Fail(core.OracleFailure{What: "an empty permutation, valid for this step, makes InterpolateMatrixPermutation fail instead of changing nothing", Input: desc, Got: ierr.Error()})
 			}
 			continue
 		}
